@@ -632,7 +632,13 @@ public:
     }
     // The objects live in sandbox memory: what has to fit is their image under
     // the sandbox's ABI, which may be smaller or larger than sizeof(T)
-    using T_SbxImage = tainted_volatile<T, T_Sbx>;
+    // (a struct that has not been described to RLBox has no known image: it
+    // can only be handed around, and is sized as the application sees it)
+    using T_Base = std::remove_cv_t<std::remove_all_extents_t<T>>;
+    constexpr bool image_is_known =
+      !std::is_class_v<T_Base> || detail::has_sandbox_equivalent_v<T_Base, T_Sbx>;
+    using T_SbxImage =
+      std::conditional_t<image_is_known, tainted_volatile<T, T_Sbx>, T>;
     auto total_size = static_cast<uint64_t>(sizeof(T_SbxImage)) * count;
     if constexpr (sizeof(size_t) == 4) {
       // On a 32-bit platform, we need to make sure that total_size is not >=4GB
